@@ -107,7 +107,12 @@ def _gen_worker(job):
         eng.emit_frame(c, fn, mod)
         r = dict(status="ok", paths=0)
     else:
-      r = eng.verify(c)
+      try:
+        r = eng.verify(c)
+      except Exception:
+        # an exception of the VC generator on (possibly edited) source means "this function left the supported
+        # subset": undecided for that function; the obligations generated before the exception are still decided
+        r = dict(status="unsupported", reason="engine exception: " + traceback.format_exc()[-1500:])
     obs = []
     for ob in eng.obligations:
       obs.append(dict(label=ob.label, kind=ob.kind, func=target, clause=ob.clause, line=ob.line,
